@@ -500,8 +500,12 @@ int main(int argc, char** argv) {
           vt::Rng r(1234 + i);
           while (!go.load()) std::this_thread::yield();
           for (int j = 0; j < iters; ++j) {
-            static const char* kNames[] = {"a", "b", "c", "bad", "bad2", "fx", "fx2", "utc"};
-            std::string n = real_name(base + (long)r.below(3), kNames[r.below(8)]);
+            static const char* kNames[] = {"a", "b", "c", "bad", "bad2", "fx", "fx2", "utc", "fa", "fbad"};
+            const char* pick = kNames[r.below(10)];
+            // "fa" / "fbad": the names "a" / "bad2" behind the "file:" prefix - different names for the loader and for the factory
+            std::string n = strcmp(pick, "fa") == 0 ? "file:" + real_name(base + (long)r.below(3), "a")
+                            : strcmp(pick, "fbad") == 0 ? "file:" + real_name(base + (long)r.below(3), "bad2")
+                            : real_name(base + (long)r.below(3), pick);
             W& w = *ws[K + i];
             my_tid = K + i;
             do_call(w, K + i, n);
